@@ -162,7 +162,7 @@ impl DataItem for DynamicTypeItem {
             "NUMBER" => (other.get_underlying_number(), false),
             "DYNAMIC_TYPE" => {
                 let other_dynamic_type: &DynamicTypeItem = other.as_any().downcast_ref::<DynamicTypeItem>()?;
-                let (new_number, _) = DynamicTypeItem::convert(config, other_dynamic_type.get_number(), other_dynamic_type.get_type(), self.1.names[0].clone())?;
+                let (new_number, _) = DynamicTypeItem::convert(config, other_dynamic_type.get_number(), other_dynamic_type.get_type(), self.1.names.first()?.clone())?;
                 (new_number, true)
             },
             "PERCENT" => (do_divition(self.0, 100.0) * other.get_underlying_number(), true),
